@@ -134,6 +134,29 @@ def run(ctx):
         # R4: bytes, not chars
         ab = m.calls_to(r"str>::as_bytes$|::as_bytes$")
         ctx.check(len(ab) >= 2, "C03-R4", "bytes", "offsets slice `as_bytes()` (byte offsets from pest spans)", m.where())
+    # R1(e): the text given to the insert routine is byte-for-byte what was read from the path
+    lc = facts.one(r"generate::load_code::\{closure#0\}$")
+    if ctx.check(lc is not None, P, "anchor|load_code", "load_code (async body) found", ""):
+        rd = lc.calls_to(r"async_std::fs::read_to_string$")
+        ctx.check(len(rd) == 1, P, "read-exact", "the file is read with read_to_string (strict UTF-8; the String holds exactly the file's bytes): %s" % [c.name for c in lc.calls if "fs::" in c.name], lc.where())
+        for (bb, st) in return_values(lc):
+            rv = st["rv"]
+            if rv["k"] == "agg" and rv.get("variant") == "Some":
+                ch, root = call_chain(lc, rv["ops"][0])
+                names = [c.name.split("::")[-1] for c in ch]
+                # through the await plumbing only
+                plumbing = {"read_to_string", "into_future", "new_unchecked", "poll", "get_context"}
+                other = [n for n in names if n not in plumbing and not n.startswith("{closure")]
+                ctx.check("read_to_string" in names and not other, P, "contents-unmodified", "load_code returns the read String unmodified (chain %s)" % names[:4], lc.where(bb))
+    pr = facts.one(edit.PROCESS)
+    if pr is not None:
+        for c in pr.calls_to(r"ReferenceProcessor(<.*>)?>?::map"):
+            ch, root = call_chain(pr, c.args[1])
+            names = [x.name.split("::")[-1] for x in ch]
+            upto = names[: names.index("load_code") + 1] if "load_code" in names else names
+            plumbing = {"deref", "as_str", "load_code", "into_future", "new_unchecked", "poll"}
+            ctx.check("load_code" in names and all(n in plumbing or n.startswith("{closure") for n in upto), P, "contents-passed",
+                      "map receives exactly the String load_code returned (chain %s)" % upto, c.where())
     # ---- R2 ------------------------------------------------------------------------------------
     from . import c05
     sub = _Only(ctx, "C03-R2", ("table|insert", "extra-condition|insert", "early-exit-first", "loop-filtered", "filter-source", "anchor|filters", "anchor|early-exit"))
